@@ -9,6 +9,7 @@
 // stdin, one case per line:
 //  P minsub dint maxsub step onb px py pz dx dy dz energy mass L
 //      L x (a b ux uy uz wx wy wz)   L x (kind a)
+//  PM minsub dint maxsub nsteps step... onb px ... (as P): nsteps consecutive calls on ONE propagator
 //  D <13 options> px py pz mx my mz  nreq req...  L
 //      L x (b ac ae ux uy uz vx vy vz wx wy wz)
 // stdout, one line per case (tokens; floats in hex):
@@ -271,13 +272,18 @@ struct Particles
     }
 };
 
-void run_propagator(std::istream& is)
+// multi: "PM": nsteps step... in place of the single step; all calls are made on
+// ONE FieldPropagator object (its internal state_ persists between calls); one
+// output segment per call, separated by " ;;"
+void run_propagator(std::istream& is, bool multi)
 {
     Shared sh;
     sh.minsub = rd(is);
     sh.dint = rd(is);
     short int maxsub = static_cast<short int>(rd(is));
-    double step = rd(is);
+    std::vector<double> steps(multi ? static_cast<std::size_t>(rd(is)) : 1);
+    for (auto& x : steps)
+        x = rd(is);
     bool onb = rd(is) != 0;
     Real3 pos = rd3(is), dir = rd3(is);
     double energy = rd(is), mass = rd(is);
@@ -303,25 +309,34 @@ void run_propagator(std::istream& is)
 
     ScriptedDriver driver(sh, maxsub, ds);
     ScriptedGeo geo(sh, pos, dir, onb, gs);
-    bool ok = true;
-    Propagation result;
-    try
+    FieldPropagator<ScriptedDriver&, ScriptedGeo&> propagate(driver, particle, geo);
+    bool first = true;
+    for (double step : steps)
     {
-        FieldPropagator<ScriptedDriver&, ScriptedGeo&> propagate(driver, particle, geo);
-        result = propagate(step);
-    }
-    catch (Exhausted const&)
-    {
-        ok = false;
-    }
-    double pmag_after = value_as<units::MevMomentum>(particle.momentum());
-    std::cout << "P " << (ok ? "ok " : "exhausted ") << hex(pmag) << sh.log.str();
-    if (ok)
-    {
-        std::cout << " R " << hex(result.distance) << ' ' << result.boundary << ' '
-                  << result.looping << ' ' << geo.is_on_boundary() << ' ' << geo.pos()
-                  << ' ' << geo.dir() << ' ' << hex(pmag_after) << ' '
-                  << (e_before == particle.energy().value() ? 1 : 0);
+        bool ok = true;
+        Propagation result;
+        sh.log.str("");
+        try
+        {
+            result = propagate(step);
+        }
+        catch (Exhausted const&)
+        {
+            ok = false;
+        }
+        double pmag_after = value_as<units::MevMomentum>(particle.momentum());
+        std::cout << (first ? "" : " ;; ") << "P " << (ok ? "ok " : "exhausted ") << hex(pmag)
+                  << sh.log.str();
+        first = false;
+        if (ok)
+        {
+            std::cout << " R " << hex(result.distance) << ' ' << result.boundary << ' '
+                      << result.looping << ' ' << geo.is_on_boundary() << ' ' << geo.pos()
+                      << ' ' << geo.dir() << ' ' << hex(pmag_after) << ' '
+                      << (e_before == particle.energy().value() ? 1 : 0);
+        }
+        else
+            break;
     }
     std::cout << "\n";
 }
@@ -393,7 +408,9 @@ int main()
         std::string kind;
         is >> kind;
         if (kind == "P")
-            run_propagator(is);
+            run_propagator(is, false);
+        else if (kind == "PM")
+            run_propagator(is, true);
         else if (kind == "D")
             run_driver(is);
         else
